@@ -480,9 +480,16 @@ def reader_pass(top, sp, reader=None, planned=False):
         keep = not_fill(col, sp["dtype"])
         gs.append((np.arange(col.shape[0], dtype=np.int64) + int(s0) - sp["start"])[keep])
         vs.append(col[keep].astype(np.float64))
-    if not gs:
-        return r, Samples()
-    return r, Samples(np.concatenate(gs), np.concatenate(vs))
+    out = Samples(np.concatenate(gs), np.concatenate(vs)) if gs else Samples()
+    if reader is not None and not planned and gs:
+        # a monitor's poll: properties at the newest sample, then the same read again -- a long-lived reader must
+        # return the same thing (its cached file handle is its own business)
+        r.get_properties(CH, sample=int(b[1]))
+        again = r.read(b[0], b[1], CH)
+        if sorted(int(k) for k in again) != sorted(int(k) for k in blocks) or \
+                any(len(again[k]) != len(blocks[k]) for k in blocks):
+            raise IOError("the same read repeated after get_properties(sample=...) returned different blocks")
+    return r, out
 
 
 def tree_files(top):
